@@ -19,6 +19,21 @@
 //                              are handled right after it, before any actor runs again
 //   9 status 0 0 0 time        end: status 0 normal, 1 the simulation aborted (xbt_assert), 2 deadlock reported
 // time = clock * 1024 (exact for the dyadic durations used).
+// SPLIT MODE (C07, the two-simcall protocol of s4u::Barrier::wait used under the model checker / in replay mode):
+//   -1 n nact r_1..r_nact L x_1..x_L
+//     one barrier of size n; actor k (pid k) calls wait() r_k times; MC_record_path() is set, so every wait() is a
+//     BARRIER_ASYNC_LOCK simcall followed by a BARRIER_WAIT simcall.  The driver plays the model checker (what
+//     mc::RecordTrace::replay does): actors run up to their next visible simcall (mc::execute_actors), then for every
+//     x the (x mod c)-th of the c actors (pid order) that have a pending, not yet fired, barrier simcall gets it
+//     handled (ActorImpl::simcall_handle) - a BARRIER_WAIT is fired whether or not it is enabled: a disabled one
+//     blocks its issuer in wait_for() exactly as on the one-simcall path.  After the L steps every pending
+//     BARRIER_WAIT is fired once (pid order, repeated until none is left), no further ASYNC_LOCK.
+//   output: 1/2 events as above (REQ when the actor reaches wait(), RET when wait() returned), and per step
+//     5 kind pid            the simcall about to be handled: kind 0 ASYNC_LOCK, 1 WAIT
+//     6 nq (pid granted)*nq  na (pid granted waiting)*na
+//                           after the step and after the resumed actors ran: ongoing_acquisitions_ of the barrier,
+//                           then, in pid order, the acquisition of every actor whose pending simcall is a BARRIER_WAIT
+//     9 status 0 0 0 0
 // Every case runs in a forked child (one s4u::Engine per process; an xbt_assert aborts the child only).
 // Sequential contexts only: actors run in actors_to_run_ order and their simcalls are handled in that same order, so
 // the order of the REQ lines is the order in which the kernel executes the operations.
@@ -34,6 +49,9 @@
 #include "src/kernel/activity/SemaphoreImpl.hpp"
 #include "src/kernel/actor/ActorImpl.hpp"
 #include "src/kernel/actor/Simcall.hpp"
+#include "src/kernel/EngineImpl.hpp"
+#include "src/kernel/actor/SynchroObserver.hpp"
+#include "src/mc/mc_replay.hpp"
 
 namespace sg4 = simgrid::s4u;
 namespace ker = simgrid::kernel;
@@ -174,8 +192,138 @@ static void body(std::vector<Op> prog)
   }
 }
 
+
+// ---------------------------------------------------------------------------------------------- split mode (C07)
+static void split_body(sg4::BarrierPtr bar, long rounds)
+{
+  long long pid = sg4::this_actor::get_pid();
+  for (long r = 0; r < rounds; r++) {
+    ev({1, pid, 7, 0, r, now()});
+    long long res = bar->wait();
+    ev({2, pid, 7, 0, res, now()});
+  }
+}
+
+// mc::execute_actors() (src/mc/mc_base.cpp; not exported): run the actors up to their next visible simcall, handling the
+// invisible ones at once
+static void execute_actors()
+{
+  auto* engine = ker::EngineImpl::get_instance();
+  while (engine->has_actors_to_run()) {
+    engine->run_all_actors();
+    for (auto const& actor : engine->get_actors_that_ran()) {
+      const ker::actor::Simcall* req = &actor->simcall_;
+      bool visible                   = req->observer_ != nullptr && req->observer_->is_visible();
+      if (req->call_ != ker::actor::Simcall::Type::NONE && not visible)
+        actor->simcall_handle(0);
+    }
+  }
+}
+
+static int run_split(const std::vector<long long>& v)
+{
+  size_t i           = 1;
+  int argc           = 4;
+  const char* args[] = {"k1_sync", "--log=root.thres:critical", "--cfg=contexts/nthreads:1", "--log=no_loc", nullptr};
+  char** argv        = const_cast<char**>(args);
+  sg4::Engine e(&argc, argv);
+  MC_record_path() = "1"; // MC_record_replay_is_active(): Barrier::wait() takes its two-simcall branch
+  auto* host       = e.get_netzone_root()->add_host("h0", 1e9);
+  e.get_netzone_root()->seal();
+  long n    = v.at(i++);
+  long nact = v.at(i++);
+  auto bar  = sg4::Barrier::create((unsigned)n);
+  auto* keep = new std::vector<sg4::ActorPtr>(); // never destroyed
+  for (long a = 0; a < nact; a++) {
+    long rounds = v.at(i++);
+    keep->push_back(host->add_actor("a" + std::to_string(a + 1), [bar, rounds] { split_body(bar, rounds); }));
+  }
+  long L = v.at(i++);
+  std::vector<long long> sched;
+  for (long k = 0; k < L; k++)
+    sched.push_back(v.at(i++));
+  auto* engine = ker::EngineImpl::get_instance();
+  auto* b      = bar->pimpl_;
+  using Acq    = ker::activity::BarrierAcquisitionImpl;
+  // pending barrier simcall of actor pid: -1 none, 0 ASYNC_LOCK, 1 WAIT (acq set)
+  auto pending = [engine](long pid, Acq*& acq) -> int {
+    acq     = nullptr;
+    auto* a = engine->get_actor_by_pid(pid);
+    if (a == nullptr || a->simcall_.call_ == ker::actor::Simcall::Type::NONE)
+      return -1;
+    auto* ob = dynamic_cast<ker::actor::BarrierObserver*>(a->simcall_.observer_);
+    if (ob == nullptr)
+      return -1;
+    if (ob->type_ == simgrid::mc::Transition::Type::BARRIER_ASYNC_LOCK)
+      return 0;
+    acq = ob->acquisition_;
+    return 1;
+  };
+  auto is_waiting = [engine](long pid, const Acq* acq) {
+    auto* a = engine->get_actor_by_pid(pid);
+    for (auto const& s : a->waiting_synchros_)
+      if (s.get() == acq)
+        return true;
+    return false;
+  };
+  auto step = [&](long pid, int kind) {
+    ev({5, kind, pid});
+    engine->get_actor_by_pid(pid)->simcall_handle(0);
+    execute_actors();
+    std::vector<long long> xs;
+    xs.push_back(6);
+    xs.push_back((long long)b->ongoing_acquisitions_.size());
+    for (auto const& q : b->ongoing_acquisitions_) {
+      xs.push_back(q->get_issuer()->get_pid());
+      xs.push_back(q->granted_ ? 1 : 0);
+    }
+    std::vector<long long> live;
+    for (long p = 1; p <= nact; p++) {
+      Acq* acq;
+      if (pending(p, acq) == 1) {
+        live.push_back(p);
+        live.push_back(acq->granted_ ? 1 : 0);
+        live.push_back(is_waiting(p, acq) ? 1 : 0);
+      }
+    }
+    xs.push_back((long long)live.size() / 3);
+    xs.insert(xs.end(), live.begin(), live.end());
+    for (long long x : xs)
+      buf += std::to_string(x) + " ";
+    flush();
+  };
+  execute_actors();
+  for (long long x : sched) {
+    std::vector<std::pair<long, int>> cand;
+    for (long p = 1; p <= nact; p++) {
+      Acq* acq;
+      int k = pending(p, acq);
+      if (k == 0 || (k == 1 && not is_waiting(p, acq)))
+        cand.emplace_back(p, k);
+    }
+    if (cand.empty())
+      break;
+    auto [p, k] = cand[(size_t)(x % (long long)cand.size())];
+    step(p, k);
+  }
+  for (bool again = true; again;) {
+    again = false;
+    for (long p = 1; p <= nact; p++) {
+      Acq* acq;
+      if (pending(p, acq) == 1 && not is_waiting(p, acq)) {
+        step(p, 1);
+        again = true;
+      }
+    }
+  }
+  ev({9, 0, 0, 0, 0, now()});
+  return 0;
+}
+
 static int run_case(const std::vector<long long>& v)
 {
+  if (not v.empty() && v[0] == -1)
+    return run_split(v);
   size_t i = 0;
   int argc = 4;
   const char* args[] = {"k1_sync", "--log=root.thres:critical", "--cfg=contexts/nthreads:1", "--log=no_loc", nullptr};
